@@ -727,9 +727,132 @@ def dict_argclass(op):
 
 # --------------------------------------------------------------------------------------------- one case
 
+# --------------------------------------------------------------------------------------------- reflected / mixed
+
+# distinct, acceptable and already normalised items for the plain (left) operand, per item field
+LEFT_ITEMS = {"Int": [101, 102, 103], "String/upper": ["L1", "L2", "L3"], "Bool": [False, True],
+              "Bytes": [{"$b": "6c31"}, {"$b": "6c32"}, {"$b": "6c33"}], "List<Int>": [[101], [102, 103], []]}
+
+
+def _plus_eq(left, x):
+    left0 = left
+    left += x
+    return [type(left) is type(left0), left is left0, left]
+
+
+def _ior(left, x):
+    left0 = left
+    left |= x
+    return [type(left) is dict, left is left0, left]
+
+
+def _call(f, left, x):
+    f(left, x)
+    return [type(left).__name__, left]
+
+
+# expression name -> (proxy method it exercises, function(fresh plain left operand, proxy or built-in))
+LIST_EXPRS = {
+    "list+proxy": ("__radd__", lambda L, x: L + x),
+    "tuple+proxy": ("__radd__", lambda L, x: tuple(L) + x),                # TypeError with the built-in
+    "list+=proxy": ("__iter__", _plus_eq),
+    "sum([proxy,proxy],list)": ("__radd__", lambda L, x: sum([x, x.copy()], L)),
+    "[*list,*proxy]": ("__iter__", lambda L, x: [*L, *x]),
+    "list.extend(proxy)": ("__iter__", lambda L, x: _call(lambda a, b: a.extend(b), L, x)),
+    "list[1:1]=proxy": ("__iter__", lambda L, x: _call(lambda a, b: a.__setitem__(slice(1, 1), b), L, x)),
+    "list(proxy)": ("__iter__", lambda L, x: [type(list(x)).__name__, list(x)]),
+    "tuple(proxy)": ("__iter__", lambda L, x: tuple(x)),
+    "sorted(proxy)": ("__iter__", lambda L, x: sorted(x)),
+    "reversed(proxy)": ("__reversed__", lambda L, x: list(reversed(x))),
+    "proxy==list": ("__eq__", lambda L, x: [x == L, x != L, x == plain(x), x == [*plain(x), *L]]),
+    "list==proxy": ("__eq__", lambda L, x: [L == x, L != x, plain(x) == x, [*L, *plain(x)] == x]),
+    "2*proxy": ("__rmul__", lambda L, x: 2 * x),
+    "0*proxy": ("__rmul__", lambda L, x: 0 * x),
+    "proxy*2": ("__mul__", lambda L, x: x * 2),
+    "proxy*0": ("__mul__", lambda L, x: x * 0),
+    "list+proxy+list": ("__radd__", lambda L, x: L + x + L),
+}
+DICT_EXPRS = {
+    "dict|proxy": ("__ror__", lambda D, x: D | x),
+    "proxy|dict": ("__or__", lambda D, x: x | D),
+    "dict|=proxy": ("__iter__", _ior),
+    "{**dict,**proxy}": ("keys", lambda D, x: {**D, **x}),
+    "{**proxy,**dict}": ("keys", lambda D, x: {**x, **D}),
+    "dict(proxy)": ("keys", lambda D, x: [type(dict(x)).__name__, dict(x)]),
+    "dict(proxy,**dict)": ("keys", lambda D, x: dict(x, **{k: v for k, v in D.items() if isinstance(k, str)})),
+    "dict.update(proxy)": ("keys", lambda D, x: _call(lambda a, b: a.update(b), D, x)),
+    "proxy==dict": ("__eq__", lambda D, x: [x == D, x != D, x == plain(x), x == {**plain(x), **D}]),
+    "dict==proxy": ("__eq__", lambda D, x: [D == x, D != x, plain(x) == x]),
+}
+
+
+def run_reflected(case):
+    """the proxy as right operand / argument of a built-in: the same expression on the built-in list / dict of the
+    normalised items must give the same value (contents, order, length; the proxy counts as its built-in base, so
+    whether a result is typed is not asserted) or the same TypeError; the proxy itself must stay as it was"""
+    is_list = case["kind"] == "reflected-list"
+    c = (ListCase if is_list else DictCase)(case["field"], case["init"])
+    meth, f = (LIST_EXPRS if is_list else DICT_EXPRS)[case["expr"]]
+    cls = "fields.list_field:ListProxy" if is_list else "fields.dict_field:DictProxy"
+    wk = "reflected:" + case["expr"]
+
+    def left():
+        v = dec(case["left"])
+        return list(v) if is_list else {k: x for k, x in (tuple(kv) for kv in v)}
+
+    def run(x):
+        try:
+            return ("ok", f(left(), x))
+        except Exception as e:
+            return ("exc", type(e).__name__)
+    rm, rp = run(c.m), run(c.p)
+    fails = []
+    if rm[0] == "exc" or rp[0] == "exc":
+        if rm != rp:
+            fails.append({"obligation": "%s.%s/raise:C17.reflected-raises-as-builtin" % (cls, meth), "witness_key": wk,
+                          "what": "%s with left operand %s and %s: built-in %s, proxy %s" % (
+                              case["expr"], short(left()), short(c.m), _oc(rm), _oc(rp))})
+    elif not same(rp[1], rm[1]):
+        fails.append({"obligation": "%s.%s/post:C17.reflected-as-builtin" % (cls, meth), "witness_key": wk,
+                      "what": "%s with left operand %s and %s: built-in gives %s, proxy gives %s" % (
+                          case["expr"], short(left()), short(c.m), short(rm[1]), short(plain(rp[1])))})
+    if not same(c.p, c.m):
+        fails.append({"obligation": "%s.%s/post:C17.reflected-leaves-proxy-unchanged" % (cls, meth),
+                      "witness_key": wk, "what": "%s changed the proxy from %s to %s" % (
+                          case["expr"], short(c.m), short(plain(c.p)))})
+    for x in fails:
+        x["step"] = 0
+    return fails, 1
+
+
+def reflected_cases():
+    F = _fields()
+    for field in LIST_FIELDS:
+        pool, items = F[field][1], LEFT_ITEMS[field]
+        for n_left in range(len(items) + 1):
+            for n_proxy in range(4):
+                for expr in LIST_EXPRS:
+                    yield {"kind": "reflected-list", "field": field, "init": pool[:n_proxy], "left": items[:n_left],
+                           "expr": expr, "ops": []}
+    for field, (kname, vname, keys) in DICT_FIELDS.items():
+        vals = F[vname][1] if vname else [1, "v", [1], 1]
+        lvals = LEFT_ITEMS[vname] if vname else [7, "l", [8]]
+        c = DictCase(field, [])
+        # distinct left keys; the first one is a key the populated proxies also hold (after normalisation)
+        lkeys = [c.nk(dec(keys[0])), "L2", "L3"]
+        init = [[keys[0], vals[0]], [keys[1], vals[1]], [keys[2], vals[2]]]
+        for n_left in range(min(len(lvals), 3) + 1):
+            for n_proxy in range(4):
+                for expr in DICT_EXPRS:
+                    yield {"kind": "reflected-dict", "field": field, "init": init[:n_proxy],
+                           "left": [[lkeys[i], lvals[i]] for i in range(n_left)], "expr": expr, "ops": []}
+
+
 def run_case(case):
     """-> (failures, steps run).  A failure: {"obligation", "witness_key", "what", "step"}; stops at the first
     failing step (the two sides have diverged)."""
+    if case["kind"].startswith("reflected"):
+        return run_reflected(case)
     is_list = case["kind"] == "list"
     c = (ListCase if is_list else DictCase)(case["field"], case["init"])
     cls = "fields.list_field:ListProxy" if is_list else "fields.dict_field:DictProxy"
@@ -821,6 +944,7 @@ def pairs2(full, small, wide, main):
 
 def cases(tier):
     F = _fields()
+    yield from reflected_cases()
     for field in LIST_FIELDS:
         pool = F[field][1]
         full, small = list_ops(field, 0), list_ops(field, 1)
@@ -889,7 +1013,12 @@ def rac(tier="quick", seed=0):
               "extend and += cut off after 5 items; p.items(), generators over p.items() and p for update and |=), "
               "modelled by the same iterable over the built-in; None values and keys that hold None (setdefault, "
               "update, get, in, []); update(positional, **keywords) with keys that overlap, also only after "
-              "normalisation; all sequences of length 1 from an empty "
+              "normalisation; reflected / mixed-operand expressions with the proxy as right operand or argument of a "
+              "built-in (list + p, tuple + p, list += p, sum, [*l, *p], list.extend(p), l[1:1] = p, list/tuple/sorted/"
+              "reversed(p), == both ways, n * p, p * n; dict | p, p | dict, dict |= p, {**d, **p}, dict(p), "
+              "dict.update(p), ==) for plain operands of 0..3 distinct items and proxies of 0..3 items, against the "
+              "same expression on the built-in (a TypeError must be a TypeError; result typedness not asserted); "
+              "all sequences of length 1 from an empty "
               "and a populated value, of length 2 over the full pool from the populated value for three fields of each "
               "kind (full x reduced and reduced x full for the other two; reduced pool from the other initial "
               "values), of length 3 over a reduced pool of 20 (list) / 18 (dict) operations for three fields of each "
@@ -950,6 +1079,8 @@ def _one(rec, case):
 def _shrink(rp):
     """drop leading operations / the initial contents while the same (obligation, witness) still fails"""
     best = rp
+    if rp["kind"].startswith("reflected"):
+        return rp
     for cand in (dict(rp, ops=rp["ops"][-1:]), dict(rp, ops=rp["ops"][-1:], init=[]), dict(rp, init=[])):
         if len(json.dumps(cand)) < len(json.dumps(best)) and _fails(cand):
             best = cand
